@@ -25,6 +25,7 @@ var ghostKinds = map[string]string{
 	"synced": "bool", "created": "bool", "locked": "bool",
 	"first": "uint64", "last": "uint64", "nstored": "int", "ncalls": "int",
 	"persistedID": "uint64", "commits": "int",
+	"deleted": "set64", "listed": "set64",
 	"data": "bytes", "codecID": "uint64", "ctxerr": "error", "base": "uint64", "sealed": "bool", "indexStart": "uint64",
 }
 
@@ -60,6 +61,9 @@ func (e *Exec) ghostGet(st *State, obj *Object, name string) Value {
 		return VInt{T: e.declare(key, BV64), Signed: false}
 	case "error":
 		return VErr{e.declare(key, BV32)}
+	case "set64":
+		// ghost set of uint64 (e.g. the segment IDs whose deletion was requested)
+		return VTerm{e.declare(key, ArrSort(BV64, BoolSort))}
 	case "bytes":
 		// ghost byte sequence (e.g. file contents): a region whose length is
 		// the ghost field `size` of the same object
